@@ -22,11 +22,13 @@ struct Spec {
     size_t deflen = 0;
     int pattern = rv::P_UNIQUE;
     bool overlong = false;                              /* a payload longer than its length field can represent */
+    bool keepall = false;                               /* union-like variants: the ones the selector does not choose stay populated */
     std::string label() const {
         std::ostringstream o;
         o << cls->name;
         if (code) o << "#" << code;
         if (overlong) o << " OVERLONG";
+        if (keepall) o << " ALLVARIANTS";
         static const char * pn[] = {"unique", "00", "ff", "80/7f", "sparse"};
         o << " fill=" << pn[pattern];
         for (auto & s : sel) o << " " << s.first << "=" << s.second;
@@ -66,7 +68,7 @@ inline ObjectHeaderBase * build(const Spec & s) {
         uint64_t natural = o->calculateObjectSize();
         rv::set_scalar(*o, field, natural + kv.second - 1);
     }
-    normalise(*o);
+    if (!s.keepall) normalise(*o);
     return o;
 }
 
@@ -227,6 +229,9 @@ inline std::vector<Spec> universe(const Options & opt, const std::string & only_
                         s.pattern = p;
                         s.overlong = si >= first_overlong;
                         out.push_back(s);
+                        /* an application may have filled every variant and chosen one by the flags: the others must not leak into
+                         * the framing (they are not serialised, so the round-trip comparison ignores them) */
+                        if (std::string(c.name) == "SerialEvent" && p == rv::P_UNIQUE) { s.keepall = true; out.push_back(s); }
                     }
     }
     return out;
